@@ -72,6 +72,76 @@ def enumerate_cases(tier):
             for offset in (0, 3):
                 yield {"family": "stream-fault", "cfg": {"algo": "SHA-256", "depth": 2, "width": 2}, "contents": [content],
                        "kind": kind, "offset": offset}
+    # the CALLER's stream fails once while it is being read (e.g. a network file system time-out)
+    for algo in ("SHA-256", "MD5"):
+        for fail_at in (0, 1, 4096, 8192, 5 * 4096):
+            for en in ("ETIMEDOUT", "EIO", "EAGAIN", "ESTALE"):
+                yield {"family": "flaky-stream", "cfg": {"algo": algo, "depth": 2, "width": 2},
+                       "contents": [{"pat": "f1a2", "n": 6 * 4096 + 7}], "fail_at": fail_at, "errno": en}
+
+
+class _FlakyRaw:
+    pass
+
+
+def _flaky_stream(data, fail_at, errno_name):
+    import errno
+    import io
+
+    class Raw(io.RawIOBase):
+        def __init__(self):
+            self.pos, self.failed = 0, False
+
+        def readable(self):
+            return True
+
+        def seekable(self):
+            return True
+
+        def seek(self, off, whence=0):
+            self.pos = off if whence == 0 else self.pos + off if whence == 1 else len(data) + off
+            return self.pos
+
+        def tell(self):
+            return self.pos
+
+        def readinto(self, b):
+            if not self.failed and self.pos >= fail_at:
+                self.failed = True
+                code = getattr(errno, errno_name)
+                raise OSError(code, "injected read failure of the caller's stream")
+            chunk = data[self.pos:self.pos + len(b)]
+            b[:len(chunk)] = chunk
+            self.pos += len(chunk)
+            return len(chunk)
+    return io.BufferedReader(Raw(), buffer_size=4096)
+
+
+def _flaky_case(case, ctx):
+    run = seq.Run(dict(case, ops=[]), ctx)
+    data = run.contents[0]
+    stream = _flaky_stream(data, case["fail_at"], case["errno"])
+    out = common.call(run.store.store_object, TARGET, stream)
+    what = f"store_object(stream whose read fails once with {case['errno']} at offset {case['fail_at']}, {len(data)} bytes)"
+    if is_ok(out):
+        om = out[1]
+        want = run.cfg.digest(data)
+        o = common.retrieve_bytes(run.store, TARGET)
+        import hashlib
+        bad = [a for a, v in om.hex_digests.items() if v != hashlib.new(a, data).hexdigest()]
+        if om.cid != want or om.obj_size != len(data) or bad or not is_ok(o) or o[1] != data:
+            ctx.violation("success-with-wrong-content", f"{what} returned normally with cid={om.cid[:16]}.. (true {want[:16]}..), "
+                          f"obj_size={om.obj_size}, wrong digests for {bad}, retrieve -> "
+                          f"{o[1] if not is_ok(o) else seq._short(o[1])}", {"what": "flaky stream"})
+        ctx.classify("flaky-stream-store-succeeded")
+    else:
+        ctx.classify("flaky-stream-store-raised")
+        if stream.closed:
+            ctx.violation("stream-closed", f"caller's stream was closed by {what}", {"what": "flaky stream"})
+    ctx.nontrivial(["flaky", case["cfg"]["algo"], case["fail_at"], case["errno"], "ok" if is_ok(out) else "raised"])
+    ctx.sample({"family": "caller's stream fails once", "fail_at": case["fail_at"], "errno": case["errno"],
+                "outcome": "ok" if is_ok(out) else out[1]})
+
 
 
 def _stream_fault_case(case, ctx):
@@ -148,6 +218,8 @@ def _check_stream(ctx, r, what):
 def run_case(case, ctx):
     if case.get("family") == "stream-fault":
         return _stream_fault_case(case, ctx)
+    if case.get("family") == "flaky-stream":
+        return _flaky_case(case, ctx)
     run = seq.Run(case, ctx)
     data = run.contents[0]
     cfg = run.cfg
